@@ -8,6 +8,7 @@ from skglm.solvers.common import (
 from skglm.solvers.base import BaseSolver
 from skglm.utils.anderson import AndersonAcceleration
 from skglm.utils.validation import check_attrs
+from skglm.utils import _verif
 
 
 class AndersonCD(BaseSolver):
@@ -122,6 +123,9 @@ class AndersonCD(BaseSolver):
                 intercept_opt = 0.
 
             stop_crit = max(np.max(opt), intercept_opt)
+            if _verif.ON:
+                _verif.emit("outer", solver="AndersonCD", t=t, stop_crit=stop_crit,
+                            w=w, Xw=Xw)
 
             if self.verbose:
                 print(f"Stopping criterion max violation: {stop_crit:.2e}")
@@ -137,6 +141,8 @@ class AndersonCD(BaseSolver):
 
             # here use topk instead of np.argsort(opt)[-ws_size:]
             ws = np.argpartition(opt, -ws_size)[-ws_size:]
+            if _verif.ON:
+                _verif.emit("ws", solver="AndersonCD", t=t, ws=ws)
 
             # re init AA at every iter to consider ws
             accelerator = AndersonAcceleration(K=5)
@@ -175,10 +181,18 @@ class AndersonCD(BaseSolver):
                              penalty.value(w[:n_features]))
                     p_obj_acc = (datafit.value(y, w_acc[:n_features], Xw_acc) +
                                  penalty.value(w_acc[:n_features]))
+                    if _verif.ON:
+                        _verif.emit("extrap", solver="AndersonCD", t=t, epoch=epoch,
+                                    w=w, Xw=Xw, w_acc=w_acc, Xw_acc=Xw_acc,
+                                    p_obj=p_obj, p_obj_acc=p_obj_acc)
 
                     if p_obj_acc < p_obj:
                         w[:], Xw[:] = w_acc, Xw_acc
                         p_obj = p_obj_acc
+
+                if _verif.ON:
+                    _verif.emit("epoch", solver="AndersonCD", t=t, epoch=epoch,
+                                w=w, Xw=Xw)
 
                 if epoch % 10 == 0:
                     if is_sparse:
@@ -209,6 +223,12 @@ class AndersonCD(BaseSolver):
                             break
             p_obj = datafit.value(y, w[:n_features], Xw) + penalty.value(w[:n_features])
             obj_out.append(p_obj)
+            if _verif.ON:
+                _verif.emit("outer_end", solver="AndersonCD", t=t, p_obj=p_obj,
+                            w=w, Xw=Xw)
+        if _verif.ON:
+            _verif.emit("return", solver="AndersonCD", stop_crit=stop_crit, w=w,
+                        Xw=Xw, n_obj=len(obj_out))
         return w, np.array(obj_out), stop_crit
 
     def path(self, X, y, datafit, penalty, alphas=None, w_init=None,
